@@ -61,8 +61,21 @@ INVENTORY = [
      "Model/RangeConn.v conn_step (C09); conn_never_panics"),
     ("src/comprash.rs PathQuery / UriKey", "&self.string[..query_start]; &self.string[query_start..]", "Model/Panics.v pq_path/pq_query; "
      "pathquery_never_panics"),
-    ("src/comprash.rs clone_preferred", "values[0] (guarded by len == 1); list_header", "Model/Negotiate.v list_header (every slice is the get form); "
-     "list_header_never_panics (C06)"),
+    ("src/comprash.rs clone_preferred", "values[0] (guarded by len == 1); list_header; the weights (f32::from_str: nan, inf, 1e400, -0, .5, 1., +1 are "
+     "accepted) are tested with == 0.0, != 0.0 and == 1.0 only — total on every f32, NaN included; nothing orders them (partial_cmp is None on a NaN)",
+     "Model/Negotiate.v list_header (every slice is the get form), parse_q_dec (the grammar of f32::from_str), qclass; list_header_never_panics (C06); "
+     "Model/Panics.v ae_answer: accept_encoding_always_answered (any weight parser); sort_weights / weight_order_variant_refuted: a rewrite that sorts the "
+     "accepted codings with partial_cmp(..).unwrap() panics exactly on two or more members with a NaN weight; component c02.ae (compared, live: every pair of "
+     "13 core weight texts on two codings, ~60 further texts, random lists; pages cached / not cached / file / built-in 404 / under the 50-byte floor), "
+     "conn-weights, server-weights"),
+    ("client-controlled numbers: parsers, casts, comparisons (the complete list for the request path)",
+     "f32::from_str (weights, above); u64::from_str x2 (range; `as usize` only after the clamp to body.len() in apply_to_response); usize::from_str "
+     "(content-length; (len - buffer.len()) as u64 widens); the time crate's fixed-width integer fields (if-modified-since; compared as OffsetDateTime, a "
+     "total order); pos += read as u64 and read - (pos - end) as usize in stream_body (below the 64 KiB buffer); u32 integer * unit in "
+     "from_kvarn_cache_control (RESPONSE header); no from_str_radix, no sort / max / min over client-controlled values anywhere in src, utils, async, "
+     "extensions (vary.rs' documented callback sorts accept-language weights with unwrap_or(Equal): operator code, exercised on /v with lists of up to 64 members)",
+     "Model/Negotiate.v parse_q_dec, Model/Range.v sanitize_range / apply_range, Model/Http1Read.v body_length, Model/Ims.v, Model/Panics.v stream_chunk, "
+     "Model/CacheControl.v; the list is in Model/Panics.v ('Numbers a client controls')"),
     ("utils/src/parse.rs list_header", "header.get(a..b) x4; position + 1 / + 2", "Model/Negotiate.v; list_header_never_panics (C06)"),
     ("utils/src/parse.rs query + Query::insert/index_of/iterate_to_*", "query.get(..) x4; value_start.saturating_sub(1); "
      "self.pairs[index..]; self.pairs[..index]; index -= 1; Vec::insert(pos, ..); binary_search_by", "Model/Panics.v query; query_never_panics"),
@@ -405,6 +418,9 @@ def generate(rng, tier):
     cases.append(conn_case(b"GET / HTTP/1.1\r\nA: \n\r\n", "corpus"))
     cases.append(conn_case(b"GET /h HTTP/1.1\r\nRange: bytes=0-18446744073709551615\r\n\r\n", "corpus"))
     cases.append(conn_case(b"GET /e.html HTTP/1.1\r\n\r\nGET /n.html HTTP/1.1\r\n\r\nGET /x.html HTTP/1.1\r\n\r\n", "corpus"))
+    # dc5aa45 (the documented vary callback sorted NaN weights with a comparator that is no total order: 40 members)
+    cases.append(conn_case(b"GET /v HTTP/1.1\r\nHost: localhost\r\nAccept-Language: " + b", ".join(
+        [b"en;q=0.1", b"sv;q=0.5", b"sv;q=0.9", b"fr;q=0.9", b"fr;q=0", b"en;q=nan", b"fr;q=nan", b"fr;q=0.9", b"sv;q=inf", b"fr;q=0.5"] * 4) + b"\r\n\r\n", "corpus"))
     cases += range_cases(b"bytes=0-18446744073709551615", 10, "corpus")
     cases += [hdr_case(b"A: \n\n", "corpus"), hdr_case(b"A:\n\n", "corpus"), head_case(b"GET / HTTP/1.1\r\nA: \n\r\n", "corpus")]
     # 176c67e (an empty last template), 4e78a7d (a quote that is not closed)
@@ -659,6 +675,15 @@ def generate(rng, tier):
         reqs = [ae_request(v) for _ in range(3)]
         # one segment per request, so that each is read on its own
         cases.append(conn_case(b"".join(reqs), "conn-weights", sched=[len(r) for r in reqs]))
+    # the vary callback of /v ranks the accept-language members by weight (the example of kvarn's documentation): lists of more
+    # than 20 members (slice::sort_by checks the comparator's consistency from there on) whose weights are numbers, infinities and NaNs
+    for i in range(16 if quick else 600):
+        k = [24, 33, 40, 48, 64, 21, 100, 200][i % 8]
+        v = b", ".join(rng.choice([b"sv", b"en", b"en-GB", b"de", b"fr"]) + b";q=" +
+                       rng.choice([b"nan", b"NaN", b"1", b"0.5", b"0.9", b"0.1", b"inf", b"0", b"-1", b"1e400", b"-nan"]) for _ in range(k))
+        data = (b"GET /v HTTP/1.1\r\nHost: " + (b"localhost" if i % 4 else b"lim.example") + b"\r\nAccept-Language: " + v +
+                b"\r\nAccept-Encoding: " + weighted_list(rng, Q_CODINGS) + b"\r\n\r\n")
+        cases.append(conn_case(data, "conn-lang-weights"))
     for w in Q_CORE:
         for v in (b"gzip;q=" + w + b", br", b"br;q=" + w + b", gzip;q=" + w):
             data = b"GET " + rng.choice(AE_PAGES[:5]) + b" HTTP/1.1\r\nHost: localhost\r\nAccept-Encoding: " + v + b"\r\n\r\n"
@@ -1063,6 +1088,10 @@ THEOREMS = [
      "forall h : bytes, CacheControl.from_kvarn_cache_control false h <> Panic"),
     ("kvarn_cache_control_checked_refuted",
      "CacheControl.from_kvarn_cache_control true (B \"4294967295d\") = Panic"),
+    ("accept_encoding_always_answered",
+     "forall (parse_q : bytes -> option Negotiate.qclass) (status : N) (big : bool) (ae : option bytes), let values := Negotiate.header_values parse_q ae in (ae_answer parse_q status big ae = (406, Some Negotiate.s_identity) /\\ Negotiate.disable_identity values = true) \\/ (ae_answer parse_q status big ae = (status, Some Negotiate.s_identity) /\\ Negotiate.disable_identity values = false) \\/ (exists a, ae_answer parse_q status big ae = (status, Some (Negotiate.alg_name a)) /\\ big = true /\\ Negotiate.contains values (Negotiate.alg_name a) = true)"),
+    ("weight_order_variant_refuted",
+     "forall (A : Type) (l : list (A * fweight)), sort_weights l = Panic <-> (2 <= length l)%nat /\\ Exists (fun m => snd m = FNan) l"),
     ("request_path_never_panics",
      "forall (grow : nat -> nat -> nat -> nat) (parse_q : bytes -> option Negotiate.qclass) (checked : bool) (mode : N) (https : bool) (ops : list Hosts.op) (c : Hosts.collection) (dh : option bytes) (max_len : nat) (limit : N) (lcfg : Limiter.config) (t0 : N) (lh : list Limiter.event) (addr now : N) (public : bytes) (cors_default_deny caching : bool) (pg : RangeConn.page) (cache : option RangeConn.page) (stream : bytes) (sched : list nat), Hosts.build ops = Ok c -> Limiter.fits (S (length lh)) -> RangeConn.page_fits pg -> RangeConn.cache_ok pg cache -> request_path grow parse_q checked mode https c dh max_len limit lcfg t0 lh addr now public cors_default_deny caching pg cache stream sched <> Panic"),
 ]
